@@ -11,6 +11,7 @@ From Coq Require Import List String Bool Arith.
 From Annet Require Import Base.Str Base.Tree Model.Pattern Model.Rulebook Model.Diff Model.Order Model.Patch
      Model.Blocks Model.Pipeline Model.Implicit Spec.P_C17 Gen.Src_implicit
      Proofs.ImplicitLib Proofs.ImplicitSpec Proofs.ImplicitDiff Proofs.ImplicitCompile Proofs.ImplicitProofs.
+From Annet Require Import Model.Device Proofs.ImplicitPatch Proofs.ImplicitRemoved.
 Import ListNotations.
 Open Scope string_scope.
 
@@ -118,9 +119,12 @@ Print Assumptions C17_P_holds_of_model.
    completions, is UNCHANGED in make_diff and absent from the stripped diff - for every patching
    rulebook that treats the rows of the path with the default diff logic (a block under %ordered /
    %rewrite is re-created as a whole, defaults included: C17_no_spurious_rewrite_refuted).
-   PARTIAL: the patch half ("no command has d or its reverse form as last element") is
-   ImplicitProofs.no_spurious_patch_statement, covered by the correspondence on the real
-   _diff_and_patch only. *)
+   The name keeps its _partial suffix for the registry; the patch half is proved further down
+   (C17_no_spurious_patch ... C17_hw_no_spurious_patch).  The sentence "no command has d or its
+   reverse form as last element" is false as it stands (C17_no_spurious_patch_unconditional_refuted)
+   and so is the formalisation ImplicitProofs.no_spurious_patch_statement
+   (C17_no_spurious_patch_statement_refuted); what holds is: every command below the parent is
+   explained by a changed line other than d. *)
 Theorem C17_no_spurious_partial :
   forall im rm irs rs t u p rs' t' u' r,
     wfr irs -> okf t -> okf u ->
@@ -211,6 +215,270 @@ Theorem C17_hw_no_spurious_partial :
     entries_at (p ++ [i_row r]) (strip_unchanged D) = [].
 Proof. exact hw_no_spurious_diff. Qed.
 Print Assumptions C17_hw_no_spurious_partial.
+
+(* ---------------- clause 4, patch half ---------------- *)
+Open Scope list_scope.
+(* For ANY diff D, any patch logic (default, undo_redo, ordered, rewrite, permanent, ignore_changes),
+   any ordering rules and every formatter family whose command paths are the path stack of the
+   block stream (all but the Juniper/Nokia flattening): the last element x of a command path
+   p ++ [x] of make_patch (make_pre D) is an exit word of the family, or is explained by the entries
+   of D below the parent path p: the row of a non-UNCHANGED entry, the removal command of a REMOVED
+   (or %ordered-MOVED) entry, or "commit" next to a %force_commit entry.  (Built on the C02 lemma
+   make_patch_rel.) *)
+Theorem C17_patch_cmds_explained :
+  forall rmatch rsrc rrev block_exit rreverse f D ordering pt p x,
+    stack_family f = true ->
+    make_patch rmatch rsrc rrev block_exit rreverse (make_pre D) ordering = POk pt ->
+    In (p ++ [x]) (cmd_paths f pt) ->
+    In x (family_exits f) \/ explained_by rreverse any_entry (level_at p D) x.
+Proof. exact patch_cmds_explained. Qed.
+Print Assumptions C17_patch_cmds_explained.
+
+(* under the hypotheses of the diff half the entries of the default row d are all UNCHANGED, which
+   make_patch never looks at: every command below the parent is explained by an entry whose row is
+   NOT d.  Any implicit matcher, any patching matcher and reverse function. *)
+Theorem C17_no_spurious_patch :
+  forall im rm rsrc rrev block_exit rreverse irs rs ordering f t u p rs' t' u' r pt,
+    wfr irs -> okf t -> okf u ->
+    rules_at im irs p = Some rs' -> sub_at p t = Some t' -> sub_at p u = Some u' ->
+    In r rs' -> i_ign r = false ->
+    has_match im (i_row r) t' = false -> has_match im (i_row r) u' = false ->
+    ~ In (i_row r) (keys t') -> ~ In (i_row r) (keys u') ->
+    path_ddefault rm rs (p ++ [i_row r]) = true ->
+    stack_family f = true ->
+    let mt := add_implicit im irs t in
+    let mu := add_implicit im irs u in
+    let D := make_diff rm rs mt mu in
+    make_patch rm rsrc rrev block_exit rreverse (make_pre D) ordering = POk pt ->
+    forall x, In (p ++ [x]) (cmd_paths f pt) ->
+      In x (family_exits f) \/ explained_by rreverse (other_than (i_row r)) (level_at p D) x.
+Proof. exact no_spurious_patch. Qed.
+Print Assumptions C17_no_spurious_patch.
+
+(* read for the default row itself: when d is neither an exit word nor "commit", a command `d`
+   below the parent is the removal command of ANOTHER line of that parent that is REMOVED (or MOVED
+   under an %ordered rule) *)
+Theorem C17_no_spurious_patch_row :
+  forall im rm rsrc rrev block_exit rreverse irs rs ordering f t u p rs' t' u' r pt,
+    wfr irs -> okf t -> okf u ->
+    rules_at im irs p = Some rs' -> sub_at p t = Some t' -> sub_at p u = Some u' ->
+    In r rs' -> i_ign r = false ->
+    has_match im (i_row r) t' = false -> has_match im (i_row r) u' = false ->
+    ~ In (i_row r) (keys t') -> ~ In (i_row r) (keys u') ->
+    path_ddefault rm rs (p ++ [i_row r]) = true ->
+    stack_family f = true ->
+    ~ In (i_row r) ("commit" :: family_exits f) ->
+    let mt := add_implicit im irs t in
+    let mu := add_implicit im irs u in
+    let D := make_diff rm rs mt mu in
+    make_patch rm rsrc rrev block_exit rreverse (make_pre D) ordering = POk pt ->
+    In (p ++ [i_row r]) (cmd_paths f pt) ->
+    removal_of_other rreverse (i_row r) (level_at p D) (i_row r).
+Proof. exact no_spurious_patch_row. Qed.
+Print Assumptions C17_no_spurious_patch_row.
+
+(* the model pipeline (Model/Pipeline.v: diff_and_patch, then cmd_paths), in terms of the diff that
+   is SHOWN: no entry for d, and every command below the parent is an exit word or is explained by
+   a changed line of the shown diff other than d *)
+Theorem C17_pipeline_no_spurious_patch :
+  forall im (v : vendor) irs rs ordering t u p rs' t' u' r d pt,
+    wfr irs -> okf t -> okf u ->
+    rules_at im irs p = Some rs' -> sub_at p t = Some t' -> sub_at p u = Some u' ->
+    In r rs' -> i_ign r = false ->
+    has_match im (i_row r) t' = false -> has_match im (i_row r) u' = false ->
+    ~ In (i_row r) (keys t') -> ~ In (i_row r) (keys u') ->
+    path_ddefault pm rs (p ++ [i_row r]) = true ->
+    stack_family (v_family v) = true ->
+    let mt := add_implicit im irs t in
+    let mu := add_implicit im irs u in
+    diff_and_patch v rs ordering mt mu = (d, POk pt) ->
+    entries_at (p ++ [i_row r]) d = [] /\
+    patch_explained v (i_row r) p (p_make_diff rs mt mu) d (cmd_paths (v_family v) pt).
+Proof. exact pipeline_no_spurious_patch. Qed.
+Print Assumptions C17_pipeline_no_spurious_patch.
+
+(* every hardware branch, every vendor of a shipped block family: the shipped default rows and
+   their reverse forms are never exit words nor "commit" (by computation on the regenerated
+   tables), so: no diff entry for d; a command `d` is the removal command of another REMOVED line of
+   that parent; a command `<reverse> d` is an explicit changed row or such a removal command *)
+Theorem C17_hw_no_spurious_patch :
+  forall b, In b Src_branches -> forall (v : vendor) rs ordering t u p rs' t' u' r d pt,
+    okf t -> okf u ->
+    rules_at imatch (branch_rules b) p = Some rs' -> sub_at p t = Some t' -> sub_at p u = Some u' ->
+    In r rs' -> i_ign r = false ->
+    has_match imatch (i_row r) t' = false -> has_match imatch (i_row r) u' = false ->
+    path_ddefault pm rs (p ++ [i_row r]) = true ->
+    In (v_family v) hw_families -> v_reverse v = ib_reverse b ->
+    let mt := add_implicit imatch (branch_rules b) t in
+    let mu := add_implicit imatch (branch_rules b) u in
+    let full := p_make_diff rs mt mu in
+    diff_and_patch v rs ordering mt mu = (d, POk pt) ->
+    entries_at (p ++ [i_row r]) d = [] /\
+    (In (p ++ [i_row r]) (cmd_paths (v_family v) pt) ->
+       removal_shown v (i_row r) (level_at p d) (level_at p full) (i_row r)) /\
+    (In (p ++ [reverse_row (i_row r) (v_reverse v)]) (cmd_paths (v_family v) pt) ->
+       (exists n, In n (level_at p d) /\ d_row n = reverse_row (i_row r) (v_reverse v)) \/
+       removal_shown v (i_row r) (level_at p d) (level_at p full) (reverse_row (i_row r) (v_reverse v))).
+Proof. exact hw_no_spurious_patch. Qed.
+Print Assumptions C17_hw_no_spurious_patch.
+
+(* the shipped default rows and their reverse forms are not exit words of any shipped block family
+   nor "commit" (the computable side condition of the theorem above) *)
+Theorem C17_src_defaults_clean :
+  forallb (fun b => clean_rules (ib_reverse b) (branch_rules b)) Src_branches = true.
+Proof. exact src_branches_clean. Qed.
+Print Assumptions C17_src_defaults_clean.
+
+(* the exception is needed - "no command has d as its last element" is false as it stands: Huawei CE,
+   the device has `ntp server disable`, the generator nothing; the absent default
+   `undo ntp server disable` IS the patch, as the removal command of the removed line
+   (replayed on the real code with the shipped rulebook) *)
+Theorem C17_no_spurious_patch_unconditional_refuted :
+  exists b (v : vendor) rs t u r d pt,
+    In b Src_branches /\ okf t /\ okf u /\
+    In r (branch_rules b) /\ i_ign r = false /\
+    has_match imatch (i_row r) t = false /\ has_match imatch (i_row r) u = false /\
+    ~ In (i_row r) (keys t) /\ ~ In (i_row r) (keys u) /\
+    path_ddefault pm rs [i_row r] = true /\
+    In (v_family v) hw_families /\ v_reverse v = ib_reverse b /\
+    diff_and_patch v rs [] (add_implicit imatch (branch_rules b) t) (add_implicit imatch (branch_rules b) u)
+      = (d, POk pt) /\
+    In [i_row r] (cmd_paths (v_family v) pt).
+Proof. exact no_spurious_patch_unconditional_refuted. Qed.
+Print Assumptions C17_no_spurious_patch_unconditional_refuted.
+
+(* the earlier formalisation (P_nospur: explained only by a line's own row or reverse_row of the whole
+   line) is false: rule `foo *` removes `foo bar baz` by `undo foo bar` (replayed on the real code) *)
+Theorem C17_no_spurious_patch_statement_refuted : ~ C17_no_spurious_patch_statement.
+Proof. exact no_spurious_patch_statement_refuted. Qed.
+Print Assumptions C17_no_spurious_patch_statement_refuted.
+
+(* parents present on ONE side only: a block ADDED as a whole carries the defaults of its completion
+   as commands although neither side has them (Huawei CE: a new `user-interface con 0` block is sent
+   with `user privilege level 3`; replayed on the real code with the shipped rulebook; open finding
+   C17/no-spurious/default-below-a-block-added-as-a-whole).  The restriction of clause 4 to parents
+   present on both sides can therefore not be lifted for ADDED parents. *)
+Theorem C17_no_spurious_added_parent_refuted :
+  exists b (v : vendor) rs t u parent u' rs' r d pt,
+    In b Src_branches /\ okf t /\ okf u /\
+    sub_at [parent] t = None /\ sub_at [parent] u = Some u' /\
+    rules_at imatch (branch_rules b) [parent] = Some rs' /\ In r rs' /\ i_ign r = false /\
+    has_match imatch (i_row r) u' = false /\ ~ In (i_row r) (keys u') /\
+    path_ddefault pm rs [parent; i_row r] = true /\
+    In (v_family v) hw_families /\ v_reverse v = ib_reverse b /\
+    diff_and_patch v rs [] (add_implicit imatch (branch_rules b) t) (add_implicit imatch (branch_rules b) u)
+      = (d, POk pt) /\
+    In [parent; i_row r] (cmd_paths (v_family v) pt) /\
+    map d_op (entries_at [parent; i_row r] d) = [Added].
+Proof. exact no_spurious_added_parent_refuted. Qed.
+Print Assumptions C17_no_spurious_added_parent_refuted.
+
+(* ... and through the predicate the check evaluates on the real outputs (P_nospur_added: no command
+   for a default below a block that only the generator side has) *)
+Theorem C17_nospur_added_refuted :
+  exists b (v : vendor) rs t u d pt,
+    In b Src_branches /\ okf t /\ okf u /\ In (v_family v) hw_families /\ v_reverse v = ib_reverse b /\
+    let mt := add_implicit imatch (branch_rules b) t in
+    let mu := add_implicit imatch (branch_rules b) u in
+    diff_and_patch v rs [] mt mu = (d, POk pt) /\
+    P_nospur_added imatch (path_ddefault pm rs)
+                   (C17Pipe (v_reverse v) (branch_rules b) t u mt mu d (cmd_paths (v_family v) pt)) = false.
+Proof. exact nospur_added_refuted. Qed.
+Print Assumptions C17_nospur_added_refuted.
+
+(* ---------------- clause 4 below parents present on the DEVICE side only ---------------- *)
+(* any two trees: a row q of old that new has not, below a path present on both sides under the
+   default diff logic, is REMOVED; a REMOVED entry heads a block of the patch only under a
+   %permanent rule; so without one at that level there is NO command strictly below p ++ [q] -
+   a block removed as a whole takes its defaults with it silently.  Any patch logic otherwise, any
+   ordering, every path-stack formatter family. *)
+Theorem C17_removed_parent_no_commands :
+  forall rm rsrc rrev block_exit rreverse rs ordering f old new p q ol nl pt,
+    wf old -> wf new ->
+    sub_at p old = Some ol -> sub_at p new = Some nl -> ~ In q (keys nl) ->
+    path_ddefault rm rs p = true ->
+    stack_family f = true ->
+    let D := make_diff rm rs old new in
+    (forall n0, In n0 (level_at p D) -> a_logic (mi_attrs (d_mi n0)) <> LPermanent) ->
+    make_patch rm rsrc rrev block_exit rreverse (make_pre D) ordering = POk pt ->
+    forall c rest, ~ In (p ++ q :: c :: rest) (cmd_paths f pt).
+Proof. exact removed_parent_no_commands. Qed.
+Print Assumptions C17_removed_parent_no_commands.
+
+(* which entries can head a block of the patch at all (any diff): ADDED, AFFECTED, MOVED, or REMOVED
+   under a %permanent rule *)
+Theorem C17_patch_block_headers :
+  forall rmatch rsrc rrev block_exit rreverse f D ordering pt p h c rest,
+    stack_family f = true ->
+    make_patch rmatch rsrc rrev block_exit rreverse (make_pre D) ordering = POk pt ->
+    In (p ++ h :: c :: rest) (cmd_paths f pt) ->
+    exists n, In n (level_at p D) /\ d_row n = h /\ hdr_ok (level_at p D) n.
+Proof.
+  intros rmatch rsrc rrev block_exit rreverse f D ordering pt p h c rest Hf Hp Hin.
+  apply (cmd_paths_rpaths' f pt _ Hf) in Hin.
+  eapply rpaths_headers; [|exact Hin]. eapply make_patch_hdr. exact Hp.
+Qed.
+Print Assumptions C17_patch_block_headers.
+
+(* every hardware branch, the model pipeline on the completed trees *)
+Theorem C17_hw_removed_parent :
+  forall b, In b Src_branches -> forall (v : vendor) rs ordering t u p q ml nl d pt,
+    okf t -> okf u ->
+    let mt := add_implicit imatch (branch_rules b) t in
+    let mu := add_implicit imatch (branch_rules b) u in
+    sub_at p mt = Some ml -> sub_at p mu = Some nl -> ~ In q (keys nl) ->
+    path_ddefault pm rs p = true ->
+    In (v_family v) hw_families ->
+    (forall n0, In n0 (level_at p (p_make_diff rs mt mu)) -> a_logic (mi_attrs (d_mi n0)) <> LPermanent) ->
+    diff_and_patch v rs ordering mt mu = (d, POk pt) ->
+    forall c rest, ~ In (p ++ q :: c :: rest) (cmd_paths (v_family v) pt).
+Proof. exact hw_removed_parent. Qed.
+Print Assumptions C17_hw_removed_parent.
+
+(* the %permanent guard is needed: the block stays as a header and its lines, the default of its
+   completion included, are removed one by one (replayed on the real code) *)
+Theorem C17_removed_parent_permanent_refuted :
+  exists b (v : vendor) rs t u q r d pt,
+    In b Src_branches /\ okf t /\ okf u /\ In (v_family v) hw_families /\
+    In q (keys t) /\ ~ In q (keys (add_implicit imatch (branch_rules b) u)) /\
+    rules_at imatch (branch_rules b) [q] = Some [r] /\ i_ign r = false /\
+    sub_at [q; i_row r] t = None /\
+    diff_and_patch v rs [] (add_implicit imatch (branch_rules b) t) (add_implicit imatch (branch_rules b) u) = (d, POk pt) /\
+    In [q; reverse_row (i_row r) (v_reverse v)] (cmd_paths (v_family v) pt).
+Proof. exact removed_parent_permanent_refuted. Qed.
+Print Assumptions C17_removed_parent_permanent_refuted.
+
+Example C17_hw_removed_parent_nonvacuous :
+  let R := branch_rules br_huawei_ce in
+  let mt := add_implicit imatch R w_rm_t in
+  let mu := add_implicit imatch R [] in
+  exists ml nl d pt,
+    okf w_rm_t /\ sub_at [] mt = Some ml /\ sub_at [] mu = Some nl /\
+    In "user-interface con 0" (keys ml) /\ ~ In "user-interface con 0" (keys nl) /\
+    sub_at ["user-interface con 0"] mt = Some [("idle-timeout 5", T []); ("user privilege level 3", T [])] /\
+    path_ddefault pm w_rs [] = true /\ In (v_family w_huawei) hw_families /\
+    forallb (fun n0 => negb (logic_eqb (a_logic (mi_attrs (d_mi n0))) LPermanent)) (level_at [] (p_make_diff w_rs mt mu)) = true /\
+    diff_and_patch w_huawei w_rs [] mt mu = (d, POk pt) /\
+    cmd_paths (v_family w_huawei) pt = [["undo user-interface con"]].
+Proof. exact hw_removed_parent_nonvacuous. Qed.
+
+(* non-vacuity of C17_hw_no_spurious_patch: all guards hold on Huawei CE below
+   "user-interface con 0", the pipeline answers with a patch that has a command below that parent,
+   and neither the default nor its reverse form is among the commands *)
+Example C17_hw_no_spurious_patch_nonvacuous :
+  let R := branch_rules br_huawei_ce in
+  let p := ["user-interface con 0"] in
+  exists rs' t' u' r d pt,
+    rules_at imatch R p = Some rs' /\ sub_at p w_t = Some t' /\ sub_at p w_u = Some u' /\
+    In r rs' /\ i_ign r = false /\ i_row r = "user privilege level 3" /\
+    has_match imatch (i_row r) t' = false /\ has_match imatch (i_row r) u' = false /\
+    path_ddefault pm w_rs (p ++ [i_row r]) = true /\
+    In (v_family w_huawei) hw_families /\ v_reverse w_huawei = ib_reverse br_huawei_ce /\
+    diff_and_patch w_huawei w_rs [] (add_implicit imatch R w_t) (add_implicit imatch R w_u) = (d, POk pt) /\
+    In (p ++ ["idle-timeout 7"]) (cmd_paths (v_family w_huawei) pt) /\
+    ~ In (p ++ [i_row r]) (cmd_paths (v_family w_huawei) pt) /\
+    ~ In (p ++ [reverse_row (i_row r) "undo"]) (cmd_paths (v_family w_huawei) pt).
+Proof. exact hw_patch_nonvacuous. Qed.
 
 (* ---------------- non-vacuity of the guards ---------------- *)
 Definition ex_rs : rset :=
